@@ -997,6 +997,32 @@ fn run_seq(ops: &[Op], heartbeat: &Arc<Mutex<(String, Instant)>>, full_checks: b
                 return Outcome { viol: Some(v(&["C13"], "the same calls on Arena::with_capacity(64) + reserve(100) give different ids or a different arena than on Arena::new()".into())), steps: ops.len() };
             }
         }
+        // C13: with_capacity(n) and reserve(k) guarantee room for n and count()+k nodes
+        {
+            let w: Arena<Tok> = Arena::with_capacity(8);
+            if w.capacity() < 8 {
+                return Outcome { viol: Some(v(&["C13"], format!("with_capacity(8).capacity() == {}", w.capacity()))), steps: ops.len() };
+            }
+            for k in [1usize, 3, 5, 8, 17] {
+                let mut a2 = s.arena.clone();
+                let before = format!("{:?}", a2);
+                a2.reserve(k);
+                if a2.capacity() < a2.count() + k {
+                    return Outcome { viol: Some(v(&["C13"], format!("reserve({}) on an arena of {} slots and capacity {} leaves capacity {} (< count()+k)", k, s.arena.count(), s.arena.capacity(), a2.capacity()))), steps: ops.len() };
+                }
+                if format!("{:?}", a2) != before || a2 != s.arena {
+                    return Outcome { viol: Some(v(&["C13"], format!("reserve({}) changed the arena", k))), steps: ops.len() };
+                }
+            }
+            let mut w2: Arena<u32> = Arena::with_capacity(8);
+            for i in 0..5u32 {
+                w2.new_node(i);
+            }
+            w2.reserve(5);
+            if w2.capacity() < 10 {
+                return Outcome { viol: Some(v(&["C13"], format!("with_capacity(8), five nodes, reserve(5): capacity {} (< 10)", w2.capacity()))), steps: ops.len() };
+            }
+        }
         let c = s.arena.clone();
         if c != s.arena {
             return Outcome { viol: Some(v(&["C13"], "a clone does not compare equal to its original".into())), steps: ops.len() };
